@@ -512,10 +512,11 @@ func (v *Value) EqualValueTo(other *Value) bool {
 	if !v.val.IsValid() || !other.val.IsValid() {
 		return false
 	}
-	// TODO(flosch): As of Go 1.20, reflect supports Comparable() and Equal(). This should potentially
-	// be used here: https://pkg.go.dev/reflect#Value.Comparable
+	// Value.Comparable() (unlike Type().Comparable()) also looks at the dynamic
+	// values held in interfaces, e.g. a slice inside a struct field of type any;
+	// comparing those with == would panic.
 	return v.val.CanInterface() && other.val.CanInterface() &&
-		v.val.Type().Comparable() && other.val.Type().Comparable() &&
+		v.val.Comparable() && other.val.Comparable() &&
 		v.Interface() == other.Interface()
 }
 
